@@ -377,12 +377,28 @@ pub fn principal_for(identity: &str) -> Principal {
     User::new("aws", "123456789012", "/", identity).expect("user").into()
 }
 
+/// Debug rendering of session data with its entries in sorted order (the type is a hash map: its own Debug order varies).
+pub fn session_debug(s: &SessionData) -> String {
+    let d = format!("{:?}", s);
+    let inner = d.trim_start_matches(|c| c != '{').trim_start_matches('{').trim_end_matches(|c| c != '}').trim_end_matches('}');
+    let mut parts: Vec<&str> = if inner.is_empty() { vec![] } else { inner.split(", \"").collect() };
+    let parts2: Vec<String> = parts.drain(..).map(|p| p.trim_start_matches('"').to_string()).collect();
+    let mut parts2 = parts2;
+    parts2.sort();
+    format!("{{{}}}", parts2.join(", "))
+}
+
 pub fn session_for(identity: &str) -> SessionData {
     let mut s = SessionData::new();
     if identity == "-" {
         return s;
     }
     s.insert("aws:username", SessionValue::String(identity.to_string()));
+    if identity.starts_with("ip") {
+        // an address value the provider chose to hand out in IPv4-mapped form: it comes back exactly like that
+        s.insert("aws:SourceIp", SessionValue::IpAddr("::ffff:192.0.2.7".parse().unwrap()));
+        s.insert("aws:VpcSourceIp", SessionValue::IpAddr("2001:db8::1".parse().unwrap()));
+    }
     s
 }
 
@@ -532,6 +548,8 @@ pub struct Returned {
     pub body: Vec<u8>,
     pub principal: String,
     pub session: String,
+    /// the returned session data itself (a hash map: compare with `==`, never through its Debug text)
+    pub session_data: SessionData,
 }
 
 pub struct ValOut {
@@ -566,7 +584,11 @@ pub fn build_request(c: &Case) -> Option<Request<Bytes>> {
     let mut b = Request::builder().method(c.method.as_bytes()).uri(c.uri.as_str()).version(version).extension(ExtensionMarker(0x51671));
     for (n, v) in &c.headers {
         let name = http::header::HeaderName::from_bytes(n.as_bytes()).ok()?;
-        let value = http::header::HeaderValue::from_bytes(v).ok()?;
+        let mut value = http::header::HeaderValue::from_bytes(v).ok()?;
+        if n.to_ascii_lowercase().starts_with("x-sensitive-") {
+            // the out-of-band "sensitive" flag of a header value (HPACK never-indexed): it is not part of the value
+            value.set_sensitive(true);
+        }
         b = b.header(name, value);
     }
     b.body(Bytes::from(c.body.clone())).ok()
@@ -691,7 +713,8 @@ pub fn validate_with(c: &Case, req: Request<Bytes>, prov: &mut Provider) -> ValO
                 headers: headers_list(&parts.headers),
                 body: body.to_vec(),
                 principal: format!("{:?}", resp.principal()),
-                session: format!("{:?}", resp.session_data()),
+                session: session_debug(resp.session_data()),
+                session_data: resp.session_data().clone(),
             });
         }
         Ok(Err(e)) => {
@@ -1111,7 +1134,7 @@ pub fn validate_history_through_adapter(cases: &[Case], use_clone: bool) -> Opti
         let r = catch_unwind(AssertUnwindSafe(|| block_on(sigv4_validate_request(req, &c.region, &c.service, &mut s, now, &reqs, opts)).0));
         out.push(match r {
             Err(_) => "PANIC".to_string(),
-            Ok(Ok((_p, _b, resp))) => format!("OK principal={:?} session={:?}", resp.principal(), resp.session_data()),
+            Ok(Ok((_p, _b, resp))) => format!("OK principal={:?} session_ok={}", resp.principal(), match &c.answer { Answer::Key { identity, .. } => resp.session_data() == &session_for(identity), _ => false }),
             Ok(Err(e)) => match e.downcast::<SignatureError>() {
                 Ok(se) => format!("ERR {}", kind_of(&se)),
                 Err(_) => "ERR NotASignatureError".to_string(),
